@@ -10,7 +10,7 @@
 EXTENDS Layout
 
 CONSTANTS PixVariants,   \* subset of 1..9, see Pix below
-          HeadVariants,  \* subset of 1..3, see HeadOf below
+          HeadVariants,  \* subset of 1..5, see HeadOf below
           WithPreamble   \* set of BOOLEAN
 
 P(tag, vr, dl, salt) == [k |-> "P", tag |-> tag, vr |-> vr, dl |-> dl, salt |-> salt]
@@ -28,9 +28,22 @@ SeqEl(lm) == S(<<8, 4416>>, lm,
              <<I(lm, <<P(<<8, 24>>, "UI", 4, 5), S(<<64, 629>>, lm, <<I("E", <<>>)>>)>>),
                I("U", <<Rows>>)>>)
 
+(* mixed-length nesting: an explicit-length item whose last element is an undefined-length   *)
+(* sequence or nested encapsulated pixel data, an undefined-length item ending with an        *)
+(* explicit-length sequence, an explicit-length sequence whose last item is undefined-length  *)
+UidEl(s) == P(<<8, 24>>, "UI", 4, s)
+Mixed(lm) ==
+  S(<<8, 4416>>, lm,
+    <<I("E", <<UidEl(5), S(<<64, 629>>, "U", <<I("U", <<Rows>>)>>)>>),
+      I("U", <<UidEl(6), S(<<64, 629>>, "E", <<I("E", <<Rows>>)>>)>>),
+      I("E", <<Rows, X(<<F(0, 0), F(2, 1)>>)>>),
+      I("E", <<UidEl(7), S(<<64, 629>>, "U", <<I("E", <<Rows, S(<<114, 128>>, "U", <<>>)>>)>>)>>)>>)
+LastItemU == S(<<114, 128>>, "E", <<I("E", <<Rows>>), I("U", <<Rows>>)>>)
 HeadOf(v) == CASE v = 1 -> <<Modality, PatName, PatId, Rows>>
                [] v = 2 -> <<Modality, SeqEl("U"), PatName>>
                [] v = 3 -> <<Modality, SeqEl("E"), PatName>>
+               [] v = 4 -> <<Modality, Mixed("E"), PatName, LastItemU>>
+               [] v = 5 -> <<Modality, Mixed("U"), PatName, LastItemU>>
 Heads == {HeadOf(v) : v \in HeadVariants}
 
 Pix(v) == CASE v = 1 -> <<>>                                     \* no pixel data
@@ -52,6 +65,6 @@ RECURSIVE SetToSeq(_)
 SetToSeq(s) == IF s = {} THEN <<>> ELSE LET x == CHOOSE y \in s : TRUE IN <<x>> \o SetToSeq(s \ {x})
 AllFiles == SetToSeq(FileSet)
 (* stop tags: every attribute of the root data set, tags between and beyond *)
-AllStops == {<<8, 96>>, <<8, 4416>>, <<16, 0>>, <<16, 32>>, <<40, 16>>, PixelTag, <<65532, 65532>>}
+AllStops == {<<8, 96>>, <<8, 4416>>, <<16, 0>>, <<16, 32>>, <<40, 16>>, <<114, 128>>, PixelTag, <<65532, 65532>>}
 QuickStops == {<<8, 4416>>, <<16, 0>>, PixelTag, <<65532, 65532>>}
 =============================================================================
